@@ -31,7 +31,7 @@ def run(ctx):
     ctx.assume("A1", "A2", "A8")
     # private helpers of the signing module are inlined, so that extracting the loops into a
     # helper does not hide them
-    inline = frozenset(q for q, f in eng.prog.funcs.items() if f.mod.short == "signing" and q.split(".")[-1].startswith("_"))
+    inline = frozenset(q for q, f in eng.prog.funcs.items() if f.mod.short == "signing" and q.split(".")[-1].startswith("_")) | frozenset(q for q in ("signing.sign_signable", "signing.wrap_as_signable", "signing.serialize_and_sign") if q in eng.prog.funcs)
     sm = eng.summary(eng.prog.func("signing.sign_all_in_repodata"), None, inline)
     site = fn_site(eng, sm)
     fname, keyhex = P(sm.params[0]), P(sm.params[1])
@@ -52,65 +52,106 @@ def run(ctx):
     miss = [p for p in sm.paths if p.kind == "raise" and p.value.origin == "explicit" and all(own_site(eng, st_, "signing.sign_all_in_repodata") for st_ in p.value.chain) and ("nothas", L, C("packages")) in p.facts]
     ctx.ob("R1", "no-packages-error", site.loc(), "a document without 'packages' is rejected with %s" % (miss[0].value.exc if miss else "nothing explicit"), bool(miss) and eng.prog.exc_is_sub(miss[0].value.exc, "ValueError"))
 
-    # a document that is rebuilt ({**L, "signatures": <computed mapping>}) instead of updated in
-    # place is a different program shape: the per-section store rules below do not apply to it
-    from sa import AnalysisError
+    # ---- R2 / R3 per path: the signatures mapping M that ends up in the written document, the
+    # insertions into it, and the loops over the artifact sections they sit in.  M is
+    # L['signatures'] itself (reset, then filled in place) or a fresh dict display that is filled
+    # and then stored there / placed into a rebuilt document {**L, 'signatures': M}.
     from .c08 import _rebuilt_from
 
-    for p in rets:
-        evs0 = [ev for ev, _d in flatten_events(p.events)]
-        wr = [ev for ev in evs0 if ev[0] == "call" and ev[2] == "repo:common.write_metadata_to_file" and ev[5][0] == "ok"]
-        if wr and all(_rebuilt_from(eng.expand(ev[3][0]), L) for ev in wr) and not any(ev[0] == "store" and root_of(ev[2]) == L for ev in all_events(p.events)):
-            raise AnalysisError("C11: sign_all_in_repodata builds a new document {**loaded, 'signatures': ...} instead of updating the loaded one in place; this functional shape is not modelled (no verdict)")
-
-    # ---- R2 / R3 per path
     sigs = SubC(L, "signatures")
     agg = {"reset-first": True, "sections": True, "one-store-per-artifact": True, "target": True, "filed-under-signer": True, "signature-over-own-metadata": True, "siblings-agree": True}
     notes = {}
+
+    def section_of(base):
+        for sname in SECTIONS:
+            if base == SubC(L, sname):
+                return sname
+        return None
+
     for p in rets:
         evs = [ev for ev, _d in flatten_events(p.events)]
-        reset_idx = [i for i, ev in enumerate(evs) if ev[0] == "store" and ev[2] == sigs and is_lit(ev[3], "dict") and not ev[3][2]]
-        loops = [(i, ev) for i, ev in enumerate(evs) if ev[0] == "loop"]
-        first_insert = None
+        maps = {sigs}
+        fresh = set()
+        reset_idx = []
+        for i, ev in enumerate(evs):
+            if ev[0] == "store" and ev[2] == sigs and is_lit(ev[3], "dict") and ev[3][3] is not None:
+                maps.add(ev[3])
+                fresh.add(ev[3])
+                if not ev[3][2]:
+                    reset_idx.append(i)
+            if ev[0] == "call" and ev[2] == "repo:common.write_metadata_to_file" and ev[5][0] == "ok" and ev[3]:
+                W = eng.expand(ev[3][0])
+                if _rebuilt_from(W, L):
+                    X = W[2][-1][1]
+                    if is_lit(X, "dict") and X[3] is not None:
+                        maps.add(X)
+                        fresh.add(X)
+        # insertions with their loop context
+        inserts = []  # (event, section name or None, element term, body-path events before it, index among top-level events or None)
+
+        def visit(events, lctx, top_index):
+            flat_evs = [e for e, _d in flatten_events(events)]
+            for i, ev in enumerate(flat_evs):
+                if ev[0] == "loop":
+                    for bp in ev[4]:
+                        if bp[0] in ("fall", "continue"):
+                            visit(bp[2], lctx + [(ev, bp)], top_index if top_index is not None else i)
+                elif ev[0] in ("store", "mutcall", "del") and isinstance(ev[2], tuple) and ev[2][0] == "sub" and ev[2][1] in maps:
+                    sect, el = None, None
+                    for lev, _bp in reversed(lctx):
+                        sname = section_of(lev[2])
+                        if sname:
+                            sect, el = sname, lev[3]
+                            break
+                    inserts.append((ev, sect, el, flat_evs[:i], top_index if top_index is not None else i, lctx))
+
+        visit(p.events, [], None)
+        # reset-first: an insertion into L['signatures'] itself needs an earlier reset; a fresh
+        # display holds nothing but these insertions
+        for ev, sect, el, before, top_i, lctx in inserts:
+            if ev[2][1] == sigs and not any(r < top_i for r in reset_idx):
+                agg["reset-first"] = False
+        if not any(m in fresh for m in maps) and not reset_idx:
+            agg["reset-first"] = False
+        # loops over sections: one store per completing body path, stored under the element
         seen_sections = {}
-        for i, ev in loops:
-            base = ev[2]
-            sect = None
-            for sname in SECTIONS:
-                if base == SubC(L, sname):
-                    sect = sname
-            body_stores = []
-            for bp in ev[4]:
-                if bp[0] not in ("fall", "continue"):
-                    continue
-                st_evs = [e for e in all_events(bp[2]) if e[0] in ("store", "mutcall", "del") and root_of(e[2]) == L]
-                body_stores.append(st_evs)
-            if any(body_stores) and first_insert is None:
-                first_insert = i
+        for i, ev in enumerate(evs):
+            pass
+        loops_seen = {}
+        for ev, sect, el, before, top_i, lctx in inserts:
             if sect is None:
-                if is_lit(base, "dict") and not base[2]:
-                    continue  # the empty default of an absent optional section
-                if any(body_stores):
-                    agg["sections"] = False
-                    notes["sections"] = "a loop over %s inserts signatures" % show(base)[:60]
+                base_txt = show(lctx[-1][0][2])[:60] if lctx else "no loop"
+                if lctx and is_lit(lctx[-1][0][2], "dict") and not lctx[-1][0][2][2]:
+                    continue  # the empty default of an absent optional section: never iterates
+                agg["sections"] = False
+                notes["sections"] = "an insertion into the signatures mapping is not inside a loop over an artifact section (%s)" % base_txt
                 continue
-            el = ev[3]
-            valterm = None
-            for st_evs in body_stores:
-                if len(st_evs) != 1 or st_evs[0][0] != "store":
+            if ev[0] != "store":
+                agg["one-store-per-artifact"] = False
+                notes["one-store-per-artifact"] = "%s on the signatures mapping in section %s" % (ev[0], sect)
+                continue
+            # innermost section loop and the body path this insertion belongs to
+            lev, bp = [(l, b) for l, b in lctx if section_of(l[2]) == sect][-1]
+            loops_seen.setdefault((sect, id(lev)), {}).setdefault(id(bp), []).append((ev, before))
+        for (sect, lid), per_bp in loops_seen.items():
+            valterm = seen_sections.get(sect)
+            for bid, ins in per_bp.items():
+                if len(ins) != 1:
                     agg["one-store-per-artifact"] = False
-                    notes["one-store-per-artifact"] = "%d stores for one artifact in section %s" % (len(st_evs), sect)
+                    notes["one-store-per-artifact"] = "%d stores for one artifact in section %s" % (len(ins), sect)
                     continue
-                e = st_evs[0]
-                if e[2] != Sub(sigs, el):
+                e, before = ins[0]
+                el = [x for x in inserts if x[0] is e][0][2]
+                if e[2][2] != el:
                     agg["target"] = False
                     notes["target"] = "stored at %s" % show(e[2])[:100]
-                val = eng.expand(e[3])
+                val = _materialise(eng.expand(e[3]), before)
                 if not (is_lit(val, "dict") and len(val[2]) == 1):
                     agg["filed-under-signer"] = False
                     notes["filed-under-signer"] = "value is %s" % show(val)[:80]
                     continue
                 pk, inner = val[2][0]
+                inner = _materialise(inner, before)
                 priv = _priv_of(pk)
                 if priv is None or norm_codec(priv) != priv_want or not pubhex_of_private(pk, priv):
                     agg["filed-under-signer"] = False
@@ -123,11 +164,24 @@ def run(ctx):
                     agg["signature-over-own-metadata"] = False
                     notes["signature-over-own-metadata"] = why
                 valterm = subst(val, {el: ("ARTIFACT",), SubC(L, sect): ("SECTION",)})
-            if not body_stores or not any(body_stores):
-                agg["one-store-per-artifact"] = False
-                notes["one-store-per-artifact"] = "the loop over section %s stores nothing" % sect
             seen_sections[sect] = valterm
-        # the optional section may be absent on this path (d.get(..., {}) default): then has/nothas decides
+        # every completing body path of a section loop inserts (a path that skips an artifact leaves it unsigned)
+        def check_complete(events):
+            for ev, _d in flatten_events(events):
+                if ev[0] == "loop":
+                    sname = section_of(ev[2])
+                    if sname:
+                        for bp in ev[4]:
+                            if bp[0] in ("fall", "continue"):
+                                n_ins = len([x for x in inserts if any(b is bp for _l, b in x[5])])
+                                if n_ins == 0:
+                                    agg["one-store-per-artifact"] = False
+                                    notes["one-store-per-artifact"] = "a completing iteration over section %s stores nothing" % sname
+                                seen_sections.setdefault(sname, None)
+                    for bp in ev[4]:
+                        check_complete(bp[2])
+
+        check_complete(p.events)
         st = State(facts=p.facts)
         for sname in SECTIONS:
             if sname not in seen_sections and not st.holds(("nothas", L, C(sname))):
@@ -137,8 +191,6 @@ def run(ctx):
         if len(vals) == 2 and _strip_sites(vals[0]) != _strip_sites(vals[1]):
             agg["siblings-agree"] = False
             notes["siblings-agree"] = "the two section loops build different entries"
-        if not reset_idx or (first_insert is not None and min(reset_idx) > first_insert):
-            agg["reset-first"] = False
     texts = {
         "reset-first": ("the signatures section is reset to {} before any insertion on every path", "the signatures section is not reset before insertions (stale entries survive)"),
         "sections": ("both 'packages' and 'packages.conda' (when present) are signed", "not every artifact section is signed"),
@@ -161,6 +213,18 @@ def run(ctx):
     from . import c05
 
     c05.run(ctx.sub("DEP-C05"))
+
+
+def _materialise(t, events_before):
+    """a dict display that was created empty and then filled by stores (d = {}; d[k] = v): the
+    display of what the stores put there, in order"""
+    if not (is_lit(t, "dict") and t[3] is not None):
+        return t
+    items = list(t[2])
+    for ev in events_before:
+        if ev[0] == "store" and isinstance(ev[2], tuple) and ev[2][0] == "sub" and ev[2][1] == t:
+            items = [(k, v) for k, v in items if k != ev[2][2]] + [(ev[2][2], ev[3])]
+    return ("lit", "dict", tuple(items), t[3])
 
 
 def _priv_of(pk):
